@@ -18,6 +18,7 @@ import CqlVerif.Drv.Codec
 import CqlVerif.Drv.Bytes
 import CqlVerif.Drv.Ring
 import CqlVerif.Drv.Hostile
+import CqlVerif.Drv.Race
 open CqlVerif.Drv
 
 def dispatch (stream op real : String) : Verdict :=
@@ -42,6 +43,7 @@ def dispatch (stream op real : String) : Verdict :=
   | "bytes" => BytesStream.handle op real
   | "ring" => RingStream.handle op real
   | "hostile" => HostileStream.handle op real
+  | "race" => RaceStream.handle op real
   | _ => { kind := "diff", detail := s!"unknown stream {stream}" }
 
 partial def loop (h : IO.FS.Stream) (out : IO.FS.Stream) : IO Unit := do
